@@ -7,8 +7,8 @@
         operand, the postfix loop, base expressions incl. the `( id ...` look-ahead paths and
         parse_expression_from_base)
      crates/samlang-printer/src/source_printer.rs
-       create_doc_for_subexpression_considering_precedence_level, the three-way Binary case,
-       create_chainable_ir_docs, Unary, Lambda
+       create_doc_for_subexpression_considering_precedence_level, the three-way Binary case with
+       the guard_e1 / may_end_with_field_name rule, create_chainable_ir_docs, Unary, Lambda
      crates/samlang-ast/src/source.rs  E::precedence(), BinaryOperator::precedence()
        -> NOT copied here: taken from coq/generated/PrecTable.v, regenerated from the code. *)
 From Coq Require Import List Arith Bool.
@@ -233,13 +233,26 @@ Definition comm (o : bop) : bool := match o with Minus | Div | Mod => false | _ 
 Definition sub_paren (equal_level : bool) (parent child : expr) : bool :=
   if equal_level then pprec parent <=? pprec child else pprec parent <? pprec child.
 
+(* source_printer.rs may_end_with_field_name: can the printed form end with a field name?
+   (deliberately ignores the parentheses put around inner operands) *)
+Fixpoint may_end (e : expr) : bool :=
+  match e with
+  | Field _ _ => true
+  | Un _ a => may_end a
+  | Bin _ _ b => may_end b
+  | Lam _ b => may_end b
+  | _ => false
+  end.
+
 Definition dec_impl (parent : expr) (s : side) : bool :=
   match parent, s with
   | Field a _, SBase | Call a _, SBase => sub_paren false parent a
-  | Un _ a, SArg => sub_paren false parent a
+  | Un _ a, SArg => sub_paren true parent a      (* 98d650f: equal level is parenthesised *)
   | Lam _ b, SBody => sub_paren false parent b
   | Bin o a b, SLeft =>
-      if pprec a =? pprec parent then false else sub_paren true parent a
+      (* 98c0b1b: guard_e1 *)
+      if is_lt o && may_end a then true
+      else if pprec a =? pprec parent then false else sub_paren true parent a
   | Bin o a b, SRight =>
       if pprec a =? pprec parent then sub_paren true parent b
       else if (pprec b =? pprec parent) && comm o then false
@@ -278,9 +291,6 @@ Definition safe (e : expr) : bool := suff dec_impl e.
 Definition is_muldivmod (o : bop) : bool := match o with Mul | Div | Mod => true | _ => false end.
 Definition is_plusminus (o : bop) : bool := match o with Plus | Minus => true | _ => false end.
 
-(* K2: a unary operator applied directly to a unary expression:  !(!x) -> !!x *)
-Definition k2 (e : expr) : bool := match e with Un _ (Un _ _) => true | _ => false end.
-
 (* K1: a binary node, operator not - / %, whose right child is a binary node of the parent's
    printer precedence and of the same or a looser parser level, and whose left child is not of
    the parent's printer precedence:  a * (b / c) -> a * b / c,  f == (x < y) -> f == x < y *)
@@ -302,15 +312,7 @@ Definition k3 (e : expr) : bool :=
   | _ => false
   end.
 
-(* K6: the left operand of `<` is printed without parentheses and ends with a field name:
-   (a.b) < c -> a.b < c, where the parser reads `<` as the start of type arguments *)
-Definition k6 (e : expr) : bool :=
-  match e with
-  | Bin Lt a _ => negb (dec_impl e SLeft) && ends_field dec_impl a
-  | _ => false
-  end.
-
-Definition known_node (e : expr) : bool := k1 e || k2 e || k3 e || k6 e.
+Definition known_node (e : expr) : bool := k1 e || k3 e.
 
 Fixpoint any_node (P : expr -> bool) (e : expr) : bool :=
   P e ||
